@@ -25,7 +25,7 @@ const QUERIES: [&str; 16] = [
     "SELECT r, COUNT(*) AS n FROM t GROUP BY r HAVING COUNT(*) >= 1",
     "SELECT ts, EXTRACT(HOUR FROM ts), EXTRACT(EPOCH FROM ts), date_trunc('day', ts), date_trunc('hour', ts), date_trunc('month', ts), date_trunc('year', ts) FROM t",
     "SELECT ts FROM t WHERE ts > '2021-03-28 02:30:00'",
-    "SELECT d, make_timestamp(v, v, v, v, v, v, v, v) FROM t",
+    "SELECT d, make_timestamp(v, v, v, v, v, v, v) FROM t",
     "SELECT v::text, r::text, k::int, k::real, k::timestamp, k::interval, k::boolean FROM t",
     "SELECT array_unique(a), array_length(a), array_cat(a, a), array_append(a, v), least(v, v), greatest(r, r), pow(v, v), sqrt(r), length(k), upper(k), regexp_matches(k, k) FROM t",
     "SELECT ARRAY_AGG(r), STRING_AGG(k, ','), BOOL_AND(v > 0), BOOL_OR(r > 0.0) FROM t",
